@@ -198,7 +198,9 @@ PROPS = {
                 "sequential pipeline semantics (C19 covers the concurrent realisation); @accrue-annotated transactions are generated and expanded by Model/Accrual (C10 proves each expansion is paired).",
         "rule": "journals from the lifecycle generator (2-8 accounts incl. nested ones booked directly, 1-8 days over spans of 0-800 days, several commodities, zero/negative/many-decimal amounts, "
                 "half of them with daily/sparse price declarations incl. inverse ones and a valuation commodity) x flag vectors (from/to/last, six intervals, diff, close, sort, -s, -m level>=1 with "
-                "suffix, remap, csv/text, -k, digits). class = (outcome, flag signature, size bucket).",
+                "suffix, remap, csv/text, -k, digits). Stream `unpriced`: valued reports of such journals with the price declarations of some commodities withdrawn before a cut day or altogether and the "
+                "transactions regrouped (same-day transactions merged, bookings split, round trips and extra bookings in unpriced commodities added, order shuffled / unpriced first / unpriced last), so that a booking "
+                "without a price stands alone, before, between and after priced ones; the Delta predicate is evaluated whenever the real command exits 0. class = (outcome, flag signature, size bucket, shape of the first transaction with an unpriced booking).",
         "assumptions": ["no account/commodity filter and no level-0 mapping in this check's flag vectors (the property's own proviso)"],
     },
     "C04": {
